@@ -52,11 +52,12 @@ def o_basis_o1(rng, n=8, max_N=12):
     return O.run_oracle("basis_o1", gen())
 
 
-def o_completeness(rng, n=6, max_N=(4, 3, 2), with_cutoff=False, orders=(2, 3, 4), hooks=None):
+def o_completeness(rng, n=6, max_N=(4, 3, 2), with_cutoff=False, orders=(2, 3, 4), hooks=None, protos=None,
+                   always_cutoff=False):
     def gen():
         for k in range(n):
             order = orders[k % len(orders)]
-            cr = crystal(rng, max_N=max_N[order - 2])
+            cr = crystal(rng, max_N=max_N[order - 2], protos=protos)
             inp = {"crystal": cr, "orders": [order], "cutoff": None}
             if hooks:
                 inp["hooks"] = dict(hooks)
@@ -64,7 +65,7 @@ def o_completeness(rng, n=6, max_N=(4, 3, 2), with_cutoff=False, orders=(2, 3, 4
                     inp["hooks"]["eig_target"] = rng.randint(3, 7)
                 if "perm_nbatch" in hooks:
                     inp["hooks"]["perm_nbatch"] = rng.choice([2, 3, 4, 5, 7])
-            if with_cutoff and k % 2:
+            if with_cutoff and (k % 2 or always_cutoff):
                 from . import physics as ph
                 d = ph.min_image_distances(cr)
                 vals = np.unique(np.round(d[d > 1e-6], 6))
@@ -118,6 +119,10 @@ def o_sg(rng, n=8, max_N=12):
 
 def o_eig(rng, n=30):
     return O.run_oracle("eig", O.gen_eig_inputs(rng, n))
+
+
+def o_solver_reuse(rng, n=6):
+    return O.run_oracle("solver_reuse", O.gen_solver_reuse_inputs(rng, n))
 
 
 def o_history(rng, n=4):
@@ -305,6 +310,13 @@ PROPS = {
                    {"name": "completeness_large_eigen_path", "fn": o_completeness,
                     "quick": {"n": 6, "hooks": {"eig_threshold": 5}}, "thorough": {"n": 24, "hooks": {"eig_threshold": 5}},
                     "search": {"n": 24, "hooks": {"eig_threshold": 5}}},
+                   {"name": "completeness_cutoff_low_symmetry", "fn": o_completeness,
+                    "quick": {"n": 6, "orders": (2, 3), "max_N": (6, 4, 2), "with_cutoff": True, "always_cutoff": True,
+                              "protos": ("mono", "tetragonal2", "wurtzite", "hcp", "ortho_inv")},
+                    "thorough": {"n": 30, "orders": (2, 3), "max_N": (6, 4, 2), "with_cutoff": True, "always_cutoff": True,
+                                 "protos": ("mono", "tetragonal2", "wurtzite", "hcp", "ortho_inv")},
+                    "search": {"n": 30, "orders": (3, 2, 3), "max_N": (6, 4, 2), "with_cutoff": True, "always_cutoff": True,
+                               "protos": ("mono", "tetragonal2", "wurtzite", "hcp", "ortho_inv")}},
                    {"name": "completeness_batched_permutation_stage", "fn": o_completeness,
                     "quick": {"n": 4, "orders": (3, 4), "hooks": {"perm_nbatch": 3}},
                     "thorough": {"n": 16, "orders": (3, 4), "hooks": {"perm_nbatch": 3}},
@@ -314,10 +326,11 @@ PROPS = {
         "trusted": [KERNELS["eigh"], KERNELS["numpy"], KERNELS["float"]],
     },
     "C05": {
-        "lean": "SymfcModel.Props.C05", "gen": ["Solver"],
+        "lean": "SymfcModel.Props.C05", "gen": ["Solver", "SolverState"],
         "corr": [{"fn": S.corr_reshape, "quick": {"n_cases": 36}, "thorough": {"n_cases": 300}},
                  {"fn": S.corr_normal_eq, "quick": {"n_cases": 36}, "thorough": {"n_cases": 240}}],
-        "oracle": [{"name": "recovery", "fn": o_fit("recovery"), "quick": {"n": 12}, "thorough": {"n": 48}, "search": {"n": 36}}],
+        "oracle": [{"name": "recovery", "fn": o_fit("recovery"), "quick": {"n": 12}, "thorough": {"n": 48}, "search": {"n": 36}},
+                   {"name": "solver_object_reuse", "fn": o_solver_reuse, "quick": {"n": 6}, "thorough": {"n": 36}, "search": {"n": 18}}],
         "known": known_F1,
         "corpus": [{"name": "corpus_F1_reference_fc4_not_recovered", "fn": corpus_F1_recovery}],
         "trusted": [KERNELS["posv"], KERNELS["float"]],
@@ -386,9 +399,10 @@ PROPS = {
         "trusted": [KERNELS["eigh"], KERNELS["float"], "thread count / BLAS reduction order and log_level are not modelled"],
     },
     "C12": {
-        "lean": "SymfcModel.Props.C12", "gen": ["ApiOrders", "ApiDataset", "ApiSolve", "ApiCompute", "Solver"],
+        "lean": "SymfcModel.Props.C12", "gen": ["ApiOrders", "ApiDataset", "ApiSolve", "ApiCompute", "Solver", "SolverState"],
         "corr": [{"fn": corr_api.corr_api, "quick": {"n_hist": 40}, "thorough": {"n_hist": 300, "hist_len": 9}}],
         "oracle": [{"name": "history", "fn": o_history, "quick": {"n": 8}, "thorough": {"n": 40}, "search": {"n": 24}},
+                   {"name": "solver_object_reuse", "fn": o_solver_reuse, "quick": {"n": 6}, "thorough": {"n": 36}, "search": {"n": 18}},
                    {"name": "basis_untouched_by_fit", "fn": o_ortho_after_fit, "quick": {"n": 6}, "thorough": {"n": 24},
                     "search": {"n": 18}}],
         "trusted": [KERNELS["eigh"], KERNELS["posv"], "solver results are deterministic functions of their arguments (modelled as tokens)"],
